@@ -491,6 +491,11 @@ func (h *HAProxy) adminCommand(line, payload string) string {
 	rt.Stat("haproxy.admin_cmd")
 	if rt.Fault("sock.nonok_reply", short) {
 		h.run.trace("admin< %s  => injected non-OK reply", short)
+		if f := strings.Fields(line); len(f) >= 4 && f[0] == "commit" && f[1] == "ssl" && f[2] == "cert" {
+			// HAProxy's answer to a commit it cannot apply starts like a successful one
+			delete(h.pending, f[3])
+			return "Committing " + f[3] + ".\nunable to load certificate from file '" + f[3] + "'.\nFailed!\n"
+		}
 		return "Permission denied\n"
 	}
 	out := h.adminExec(line, payload)
